@@ -18,7 +18,8 @@ META = {
     "technique": "TLA+ guards (HeapTrace.tla, C07 tags) evaluated by TLC on recorded collections "
                  "of vo_bit builds of the real MMTk under all plans",
 }
-PREFIXES = ("C07:",)
+# a reachable object that MMTk no longer reports as valid is C07's concern too
+PREFIXES = ("C07:", "C01:reference-to-reclaimed-object")
 
 
 def run(ctx):
